@@ -232,10 +232,10 @@ def check(ctx):
         ctx.ob("C01.3", res.func, True, f"APE[{member}]: E stored",
                key=f"C01.3:{member}:dispatch", nontrivial=False)
 
-    _pipeline(ctx, "evo.main_ape.ape", "APE", "C01")
-    _run_wiring(ctx, "evo.main_ape", "ape", "C01")
-    _pipeline_views(ctx, "C01.6")
-    _pipeline_inputs(ctx, "C01.7")
+    ctx.section(_pipeline, ctx, "evo.main_ape.ape", "APE", "C01")
+    ctx.section(_run_wiring, ctx, "evo.main_ape", "ape", "C01")
+    ctx.section(_pipeline_views, ctx, "C01.6")
+    ctx.section(_pipeline_inputs, ctx, "C01.7")
 
 
 def _unconditional_after_guard(e: Event) -> bool:
